@@ -138,17 +138,20 @@ impl Writer {
                 need,
                 block.limit
             );
-            FileStateTracker::set_block_unlocked(block.id as usize);
+            // Do everything that can fail (flushing the old block, allocating the new
+            // one, possibly creating a file) before the old block is unlocked and handed
+            // to readers: a failed append must leave the writer exactly as it was.
             let mut sealed = block.clone();
             sealed.used = *cur;
             sealed.mmap.flush()?;
-            let _ = self.reader.append_block_to_chain(&self.col, sealed);
-            debug_print!("[writer] appended sealed block to chain: col={}", self.col);
             // switch to new block
             // SAFETY: We hold `current_block` and `current_offset` mutexes, so
             // this writer has exclusive ownership of the active block. The
             // allocator's internal lock ensures unique block handout.
             let new_block = unsafe { self.allocator.alloc_block(need) }?;
+            FileStateTracker::set_block_unlocked(block.id as usize);
+            let _ = self.reader.append_block_to_chain(&self.col, sealed);
+            debug_print!("[writer] appended sealed block to chain: col={}", self.col);
             debug_print!(
                 "[writer] switched to new block: col={}, new_block_id={}",
                 self.col,
@@ -167,13 +170,17 @@ impl Writer {
             need,
             *cur + need
         );
-        *cur += need;
-
         // Handle fsync based on schedule
         match self.fsync_schedule {
             FsyncSchedule::SyncEach => {
-                // Immediate mmap flush, skip background flusher
-                block.mmap.flush()?;
+                // Immediate mmap flush, skip background flusher. The entry becomes
+                // visible (offset advanced below) only once it is durable; if the sync
+                // fails the append fails and its header is invalidated again.
+                if let Err(e) = block.mmap.flush() {
+                    let _ = block.zero_range(*cur, PREFIX_META_SIZE as u64);
+                    return Err(e);
+                }
+                *cur += need;
                 debug_print!(
                     "[writer] immediate fsync: col={}, block_id={}",
                     self.col,
@@ -181,10 +188,12 @@ impl Writer {
                 );
             }
             FsyncSchedule::Milliseconds(_) => {
+                *cur += need;
                 // Send to background flusher
                 let _ = self.publisher.send(block.file_path.clone());
             }
             FsyncSchedule::NoFsync => {
+                *cur += need;
                 // No fsyncing at all - maximum throughput, no durability guarantees
                 debug_print!("[writer] no fsync: col={}, block_id={}", self.col, block.id);
             }
